@@ -20,6 +20,12 @@ CONTRACT_MODULES = [
     "c_exceptions", "c_tools", "c_base_stream", "c_protocol", "c_stream",
 ]
 BASELINE = os.path.join(VERIF, "contracts", "EXPECTED_OBLIGATIONS.json")
+# assumed contracts of external dependencies that can be exercised offline, per property (drivers/stub_conformance.py)
+CONFORMANCE_SAMPLES = {
+    "C20": ["asyncio-writelines-backpressure"],
+    "C04": ["asyncio-writelines-trailing-empty-chunk"],
+    "C06": ["stdlib-decoder-raise-sets"],
+}
 KNOWN = os.path.join(VERIF, "known_findings.json")
 
 
@@ -205,6 +211,52 @@ def run_property(prop: str, tier: str, seed: int, update_baseline: bool = False)
     if lemma_bad:
         errors.append(f"lemma library: {lemma_bad}")
 
+    # ------------------------------------------------------------------ obligations on repository constants
+    for cc in R.const_checks:
+        if cc["property"] != prop:
+            continue
+        total += 1
+        ident = f"{cc['file']}:{cc['name']}:const:{cc['pred']}"
+        try:
+            from .values import State, reset_heap_ids
+            from .verify import Engine
+            import z3 as _z3
+            eng = Engine(P, R)
+            mod = P.by_relpath[cc["file"]]
+            val = eng.eval_module_const(mod.globals_[cc["name"]], mod, State())
+            val = _z3.simplify(val)
+            okc = bool(eval(cc["pred"], {}, {"v": val.as_long()}))  # noqa: S307 - predicate from the contract file
+        except Exception as ex:  # noqa: BLE001
+            errors.append(f"{ident}: cannot evaluate the constant: {ex!r}")
+            continue
+        if okc:
+            discharged += 1
+            by_backend["evaluation"] = by_backend.get("evaluation", 0) + 1
+        else:
+            violations.append({"function": cc["file"], "id": ident, "kind": "const", "status": "refuted", "tags": [prop],
+                               "detail": f"{cc['name']} == {val} violates `{cc['pred']}`: {cc['why']}",
+                               "witness_inline": {"reproduced": True, "constant": cc["name"], "value": str(val), "required": cc["pred"], "why": cc["why"]}})
+
+    # ------------------------------------------------------------------ conformance sampling of trusted stubs (bounded)
+    conformance = []
+    sample_ids = CONFORMANCE_SAMPLES.get(prop, [])
+    if sample_ids:
+        from .replay import PY
+        try:
+            pr = subprocess.run([PY, "drivers/stub_conformance.py"] + sample_ids, cwd=VERIF, capture_output=True, text=True, timeout=300)
+            conformance = json.loads(pr.stdout.strip().splitlines()[-1])["samples"]
+        except Exception as ex:  # noqa: BLE001
+            errors.append(f"conformance sampling failed to run: {ex!r}")
+        for smp in conformance:
+            if smp["ok"]:
+                continue
+            kf = next((f for f in known_list if f.get("sample") == smp["id"] and f["property"] in (prop, "*")), None)
+            if kf is not None:
+                known_hit.append({"obligation": "conformance:" + smp["id"], "finding": kf})
+            else:
+                violations.append({"function": "drivers/stub_conformance.py", "id": "conformance:" + smp["id"], "kind": "conformance", "status": "refuted",
+                                   "detail": json.dumps(smp["detail"])[:1500], "tags": [prop], "witness_inline": {"reproduced": True, "sample": smp}})
+
     # ------------------------------------------------------------------ report
     os.makedirs(os.path.join(VERIF, "evidence"), exist_ok=True)
     os.makedirs(os.path.join(VERIF, "replays"), exist_ok=True)
@@ -219,7 +271,7 @@ def run_property(prop: str, tier: str, seed: int, update_baseline: bool = False)
         from .replay import find_witness
 
         for v in violations:
-            wit = find_witness(prop, v)
+            wit = v.get("witness_inline") or find_witness(prop, v)
             rp = os.path.join(VERIF, "replays", f"{prop}-{hashlib.sha1(v['id'].encode()).hexdigest()[:10]}.json")
             with open(rp, "w") as fh:
                 json.dump({"property": prop, "failed_obligation": v["id"], "function": v["function"], "kind": v["kind"],
@@ -278,6 +330,7 @@ def run_property(prop: str, tier: str, seed: int, update_baseline: bool = False)
             "solver_time_s": round(solver_time, 2),
             "lemmas": lemmas,
             "known_findings_matched": [k["finding"]["id"] for k in known_hit],
+            "stub_conformance_samples": conformance,
             "undischarged": [v["id"] for v in violations],
             "tagged_obligations": sum(1 for r in recs for o in r["obligations"] if prop in o["tags"]),
             "explanation": "VCs generated from the AST of /repo/src on this run by the PyVC symbolic executor against sidecar contracts; "
